@@ -40,6 +40,11 @@ def install_seams():
     import hdc.algo  # noqa: F401  (after the lock seam so hdc-created locks are simulator-aware)
 
     daskexec.install()
+    # any *implicit* dask compute (e.g. reading the values of a dask-backed auxiliary coordinate)
+    # must not start dask's real thread pool inside a simulated thread
+    import dask
+
+    dask.config.set(scheduler="synchronous")
     uuid.uuid4 = _seeded_uuid4
     proxies.install()
     from . import workload_b
